@@ -61,7 +61,7 @@ def run(ctx):
   thorough = ctx.tier == 'thorough'
   rng = ctx.rng
   ctx.rule = ("ITML and ITML_Supervised x prior in {identity, covariance, random, SPD array} x gamma in {0.1, 1, 10, inf} x default "
-              "/ explicit bounds x max_iter in 1..200, d in 2..5, up to 40 pairs: (a) the Coq model re-runs the projections on "
+              "/ explicit bounds (either order) x max_iter in 1..200, d in 2..5, up to 40 pairs: (a) the Coq model re-runs the projections on "
               "binary64 from the prior the implementation started from, the same pair differences and bounds_, for n_iter_+1 "
               "sweeps, and must reproduce A, lambda and the slack bounds (1e-6); (b) exact-rational certificate on the "
               "implementation's own M and lambda: M SPD (LDL^T), lambda >= 0, M (M0^-1 + sum y_i lambda_i v_i v_i^T) = I; "
@@ -85,6 +85,9 @@ def run(ctx):
     bounds = None
     if rng.random() < 0.5:
       bounds = np.array([float(rng.choice([0.25, 0.5, 1.0])), float(rng.choice([3.0, 6.0]))])
+      if rng.random() < 0.3:
+        bounds = bounds[::-1].copy()     # loose specification: similar pairs within u, dissimilar beyond l, u > l
+        ctx.hist('bounds', 'explicit, bounds[0] > bounds[1]')
     opt = {k: (v if not isinstance(v, np.ndarray) else 'ndarray') for k, v in kw.items()}
     opt['bounds'] = None if bounds is None else bounds.tolist()
     ctx.count('fit_runs', 1)
